@@ -35,7 +35,19 @@ pub fn segseg_case(cx: &mut Ctx, n: u64, case: &Value) {
         let sub = if m.name == "identity" { "line_intersection" } else { "line_intersection_exact_map" };
         // both argument orders and reversed directions
         for (p, q, what) in [(Line::new(ta, tb), Line::new(tc, td), "(ab, cd)"), (Line::new(tc, td), Line::new(ta, tb), "(cd, ab)"), (Line::new(tb, ta), Line::new(td, tc), "(ba, dc)")] {
+            let _ = geo::verif_hooks::take();
             let got = guard(|| line_intersection(p, q));
+            // hook H5: the branch of the decision tree the code took must be the branch of the TLA+ model (Gen_Segments!Decide);
+            // judged for the case as generated (identity map, order (ab, cd))
+            let labels: Vec<&'static str> = geo::verif_hooks::take().into_iter().filter(|l| l.starts_with("li:")).collect();
+            if m.name == "identity" && what == "(ab, cd)" {
+                let want = case["branch"].as_str().unwrap_or("");
+                let got_b = labels.last().map(|l| &l[3..]).unwrap_or("none");
+                cx.count(&format!("branch_{got_b}"), 1);
+                if got_b == want { cx.ok("decision_tree_branch"); } else {
+                    cx.bad("C11", "decision_tree_branch", case, json!({"what": "branch taken by line_intersection (hook H5) vs Gen_Segments!Decide", "got": got_b, "want": want}));
+                }
+            }
             let ok = match (&got, kind) {
                 (Ok(None), "none") => Ok(()),
                 (Ok(Some(LineIntersection::Collinear { intersection })), "collinear") => {
